@@ -48,6 +48,10 @@ pub struct ShardSpec {
     /// only records that account for no bytes: files without segments, xorbs without chunks (all byte totals zero)
     #[serde(default)]
     pub zero_byte_only: bool,
+    /// the recorded byte offset of each chunk within its xorb (a field the format never validates and no reader
+    /// relies on): 0 exact running sums, 1 all zero, 2 arbitrary values
+    #[serde(default)]
+    pub offsets_style: u32,
 }
 
 pub struct HashGen {
@@ -141,7 +145,12 @@ pub fn gen_model(spec: &ShardSpec) -> ModelShard {
                 }
                 e
             };
-            chunks.push((h, l, pos));
+            let recorded = match spec.offsets_style {
+                0 => pos,
+                1 => 0,
+                _ => rng.next_u64() as u32,
+            };
+            chunks.push((h, l, recorded));
             pos = pos.wrapping_add(l);
         }
         let hash = hg.next();
